@@ -3,3 +3,5 @@ NEXT DiagNext
 CONSTANTS
   PerTn = FALSE
 CHECK_DEADLOCK FALSE
+\* DiagInit prints every offending item of StartsAgree, BidCyclic, LookupInTable, MaskCovers,
+\* LayoutValidForTn (with frames) and ChanNrTasks (constant-level)
